@@ -266,7 +266,7 @@ Proof.
   assert (Hlext := seg_extent _ _ _ B6). rewrite lut_words_length in Hlext.
   assert (Hvext := seg_extent _ _ _ B7).
   apply andb_true_intro. split.
-  - apply N.leb_le.
+  - apply orb_true_intro. right. apply N.leb_le.
     assert (El : lenN (pack_values bits (map (fun v => index_of v (sort_dedup vals)) vals))
                  = ceil_quot (B * bits) 32).
     { destruct (N.eq_dec bits 0) as [->|Hnz].
